@@ -205,30 +205,22 @@ func VerifC13Render() {
 		nd.Assert(plain == trimmed, "C-no-hyphens-no-loss")
 	}
 
-	// (B) reference: strip the side of each text piece that faces a hyphen
-	facing := true
+	// (B) reference: a hyphen strips the facing side of the literal text piece right next to it, and
+	// nothing when what is next to it is not literal text (a value, a tag, a block, nothing at all)
 	ref := make([]c13Piece, len(ps))
 	copy(ref, ps)
 	for i, p := range ps {
 		if p.kind == 0 {
 			continue
 		}
-		if p.trimL {
-			if i == 0 || ps[i-1].kind != 0 || len(ps[i-1].text) == 0 {
-				facing = false
-			} else {
-				ref[i-1].text = c13TrimRight(ref[i-1].text)
-			}
+		if p.trimL && i > 0 && ps[i-1].kind == 0 {
+			ref[i-1].text = c13TrimRight(ref[i-1].text)
 		}
-		if p.trimR {
-			if i+1 >= len(ps) || ps[i+1].kind != 0 || len(ps[i+1].text) == 0 {
-				facing = false
-			} else {
-				ref[i+1].text = c13TrimLeft(ref[i+1].text)
-			}
+		if p.trimR && i+1 < len(ps) && ps[i+1].kind == 0 {
+			ref[i+1].text = c13TrimLeft(ref[i+1].text)
 		}
 	}
-	if facing && k != 4 && k < 5 {
+	if k < 5 {
 		want, err3 := c13Render(c, c13Tokens(ref, false), b)
 		nd.Assert(err3 == nil, "reference-renders")
 		nd.Assert(trimmed == want, "B-reference-trimmer")
